@@ -27,6 +27,8 @@
 (*                   2 / n columns for the 2-D-only contours                              *)
 (*          fitted : FALSE = the operation is applied to the constructed, unfitted model  *)
 (*          opt    : "given" | "omitted"  the other optional arguments (HDC deltas)       *)
+(*          fixval : the fixed value of a parameter that is both fixed and dependent        *)
+(*                   ("nonzero" | zero as int / float / -0.0 / numpy float / numpy int)     *)
 (*          skind  : "any" | "Width" | "Number" | "Points"  which slicer class carries    *)
 (*                   the unknown option, skw : its name ("bogus" = no slicer knows it)    *)
 (* Stages are numbered construct 1 < slice 2 < fit 3 < compute 4; 5 = a result exists.   *)
@@ -43,7 +45,11 @@ Bases == << <<Absent>>,
 
 OkOp(kind) == [kind |-> kind, arg |-> "Ok", pos |-> 0]
 DefaultCtx == [fixed |-> -1, sample |-> "none", fitted |-> TRUE, opt |-> "given",
-               skind |-> "any", skw |-> "bogus"]
+               skind |-> "any", skw |-> "bogus", fixval |-> "nonzero"]
+
+(* the value at which the parameter that is "both fixed and dependent" is fixed: a value is  *)
+(* fixed when it is not None - zero in any spelling is a fixed value like every other        *)
+FixedValues == {"nonzero", "int0", "float0", "negzero", "npfloat0", "npint0"}
 
 (* documented constructor options of the three slicers; an option of a SIBLING slicer is  *)
 (* as unknown to a slicer as a bogus name                                                 *)
@@ -111,6 +117,7 @@ InDomain(c) ==
     /\ (~c.ctx.fitted => c.fit.kind \in {"None", "Ok"} /\ c.data = "Ok")
     /\ (c.ctx.sample # "none" => c.op.kind \in TwoDimOnly)
     /\ (c.ctx.opt # "given" => c.op.kind = "hdc")
+    /\ (c.ctx.fixval # "nonzero" => \E i \in 1..c.n : c.dims[i].params = "FixedAndDependent")
     /\ (c.ctx.skind # "any" =>
           \/ /\ \E i \in 1..c.n : c.dims[i].slicer = "UnknownKwarg"
              /\ (c.ctx.skw = "bogus" \/ c.ctx.skw \in ForeignOptions(c.ctx.skind))
@@ -274,7 +281,10 @@ SlicerCtxs(c) ==      \* every slicer class x (a bogus name and every option onl
     ELSE IF Len(c.mal) = 1 /\ c.mal[1].name = "SlicerRangeAboveData"
     THEN {[DefaultCtx EXCEPT !.skind = k, !.skw = "value_range"] : k \in {"Width", "Number"}}
     ELSE {}
-InContexts(S) == UNION {{[c EXCEPT !.ctx = x] : x \in Contexts(c) \cup SlicerCtxs(c)} : c \in S}
+FixedCtxs(c) ==
+    IF Len(c.mal) = 1 /\ c.mal[1].name = "ParamFixedAndDependent"
+    THEN {[DefaultCtx EXCEPT !.fixval = v] : v \in FixedValues} ELSE {}
+InContexts(S) == UNION {{[c EXCEPT !.ctx = x] : x \in Contexts(c) \cup SlicerCtxs(c) \cup FixedCtxs(c)} : c \in S}
 AllCases(BS, PairBS) == InContexts(GoodCases(BS) \cup Singles(BS)) \cup Pairs(PairBS)
 
 ----------------------------------------------------------------------------
@@ -295,6 +305,9 @@ ConstructExc(c, hc, sc) ==
                 \/ dm.extra
          THEN "ValueError"
     ELSE IF \E i \in 1..c.n : IsCond(c.dims[i]) /\ c.dims[i].params # "Exact"
+                             \* deviation: "fixed" tested by truth value, so a parameter fixed at zero is not seen
+                             /\ ~(sc = "falsyfixed" /\ c.dims[i].params = "FixedAndDependent"
+                                  /\ c.ctx.fixval # "nonzero")
          THEN "ValueError"                                                      \* ConditionalDistribution
     ELSE IF IsCond(c.dims[1]) THEN "RuntimeError"                                \* first dimension
     ELSE "none"
